@@ -710,6 +710,91 @@ static void bounded_empty_wait(const char *desc)
     vrt_note("empty_wait_durations", "pop_wait(0.02s) took %.4fs, pop_timedwait(+0.02s) took %.4fs (evidence only)", d1, d2);
 }
 
+/* C19: consumers that are blocked in pop_wait on an empty pool when units are
+ * pushed one by one must each get a unit at once: none may sleep on until its
+ * own (far away) timeout.  The timeout is 120 s, the join of the consumers
+ * carries the call deadline (a stall is inconclusive, re-run once by the
+ * driver, and only a reproduced stall is reported). */
+typedef struct {
+    ABT_thread got;
+    int use_timed;
+    double took;
+} bw_t;
+static int c_blocked_woken;
+static void *bw_main(void *arg)
+{
+    bw_t *b = (bw_t *)arg;
+    double t0 = vrt_wall();
+    b->got = ABT_THREAD_NULL;
+    if (b->use_timed) {
+        ABT_unit u = ABT_UNIT_NULL;
+        if (ABT_pool_pop_timedwait(g_pool, &u, ABT_get_wtime() + 120.0) == ABT_SUCCESS && u != ABT_UNIT_NULL)
+            ABT_unit_get_thread(u, &b->got);
+    } else {
+        ABT_pool_pop_wait_thread(g_pool, &b->got, 120.0);
+    }
+    b->took = vrt_wall() - t0;
+    return NULL;
+}
+static void blocked_consumers_woken(vrt_rng *r, const char *desc, int nc_max)
+{
+    int k = 2 + (int)vrt_range(r, 2);
+    if (k > nc_max)
+        k = nc_max;
+    if (k > g_ntok)
+        k = g_ntok;
+    if (k < 1)
+        return;
+    bw_t b[3];
+    pthread_t pt[3];
+    for (int i = 0; i < k; i++) {
+        b[i].use_timed = (int)vrt_range(r, 3) == 0;
+        if (pthread_create(&pt[i], NULL, bw_main, &b[i]))
+            vrt_fatal("pthread_create");
+    }
+    /* let them block (if one has not yet, it simply finds the unit at once) */
+    vrt_sleep_us(2000 + (unsigned)vrt_range(r, 20000));
+    unsigned gap = vrt_range(r, 3) ? 0 : (unsigned)vrt_range(r, 300);
+    for (int i = 0; i < k; i++) {
+        VRT_ABT(ABT_pool_push_thread(g_pool, g_tok[i].th));
+        if (gap)
+            vrt_sleep_us(gap);
+    }
+    vrt_call_begin("pop_wait of a consumer that was blocked on an empty pool when as many units as there are blocked "
+                   "consumers were pushed one by one (its own timeout is 120 s away)");
+    for (int i = 0; i < k; i++)
+        pthread_join(pt[i], NULL);
+    vrt_call_end();
+    unsigned seen = 0;
+    double worst = 0;
+    for (int i = 0; i < k; i++) {
+        int id = -1;
+        for (int j = 0; j < g_ntok; j++)
+            if (b[i].got == g_tok[j].th)
+                id = j;
+        if (b[i].took > worst)
+            worst = b[i].took;
+        if (b[i].got == ABT_THREAD_NULL || id < 0 || id >= k) {
+            vrt_violation("pool:blocked-consumer-got-no-unit",
+                          "%s: %d consumers blocked in pop_wait/pop_timedwait(120 s), %d units pushed one by one: consumer %d "
+                          "returned %s after %.3fs", desc, k, k, i, b[i].got == ABT_THREAD_NULL ? "empty-handed" : "an unknown unit",
+                          b[i].took);
+            return;
+        }
+        if (seen & (1u << id)) {
+            vrt_violation("pool:unit-popped-twice", "%s: two blocked consumers returned the same unit %d", desc, id);
+            return;
+        }
+        seen |= 1u << id;
+    }
+    ABT_bool emp;
+    VRT_ABT(ABT_pool_is_empty(g_pool, &emp));
+    VRT_CHECK(emp == ABT_TRUE, "pool:quiescent-size", "%s: pool not empty after every pushed unit was handed to a blocked consumer",
+              desc);
+    vrt_count(c_blocked_woken, (uint64_t)k);
+    vrt_note("blocked_consumers_worst_wake", "%.4fs (evidence only)", worst);
+}
+
 int main(int argc, char **argv)
 {
     vrt_init(argc, argv, "h_pool");
@@ -732,6 +817,7 @@ int main(int argc, char **argv)
     c_order_pairs = vrt_counter("fifo_ordered_pairs_checked");
     c_empty_judged = vrt_counter("empty_pops_judged");
     c_wait_empty_ret = vrt_counter("blocking_pops_on_empty_pool_returned");
+    c_blocked_woken = vrt_counter("blocked_consumers_woken_by_single_pushes");
     c_by_kind[0] = vrt_counter("histories_fifo");
     c_by_kind[1] = vrt_counter("histories_fifo_wait");
     c_by_kind[2] = vrt_counter("histories_randws");
@@ -788,6 +874,8 @@ int main(int argc, char **argv)
         if (vrt_num_violations())
             break;
         bounded_empty_wait(desc);
+        if (vrt_num_violations() == 0 && nc >= 1 && g_access != ABT_POOL_ACCESS_PRIV)
+            blocked_consumers_woken(&r, desc, nc);
         /* concurrent phase */
         g_nfree = 0;
         for (int i = 0; i < g_ntok; i++)
